@@ -175,6 +175,15 @@ func (r *Runner) RunKdc(s *KdcScript, tw *TraceWriter, rng *rand.Rand) error {
 			}(k)
 		}
 	}
+	if s.After == "many-unknown" {
+		// forty requests for unknown realms, one after the other, each answered (503) - then the judged request
+		for k := 0; k < 40; k++ {
+			pmsg := make([]byte, 4+16)
+			binary.BigEndian.PutUint32(pmsg, 16)
+			pb, _ := asn1.Marshal(kdcProxyMsg{Message: pmsg, Realm: fmt.Sprintf("NOPE%d.EXAMPLE", k)})
+			rawExchange(strings.TrimPrefix(srv.URL, "http://"), "POST", "/KdcProxy", pb, false, 10*time.Second)
+		}
+	}
 	if s.After == "other-realm" || s.After == "unknown-realm" {
 		pmsg := make([]byte, 4+32)
 		binary.BigEndian.PutUint32(pmsg, 32)
